@@ -7,6 +7,9 @@ from vf.ref import tx_ref as R
 from vf.runner import Acc, filler
 
 PROPERTY = "C04"
+CONCUR_FILES = ('bits/tx.py', 'bits/utils.py', 'bits/blockchain.py')
+# (thread a, thread b), warm-up: indices into seq_ops() - the ordinary single-case checks run concurrently (vf/concur.py)
+CONCUR_SCEN = [((0, 2), ()), ((0, 0), (4,)), ((2, 4), (0,)), ((0, 8), (2,))]
 LEVEL = "exploration"
 RULE = ("transactions from the grammar (segwit on/off, 1..3 inputs/outputs, sequences incl. fffffffe and 0, script lengths "
         "{0,1,75,76,253}, witness shapes, versions, locktimes) within deviation <= 2 (quick) / <= 4 (thorough) of a legacy and "
@@ -15,6 +18,7 @@ RULE = ("transactions from the grammar (segwit on/off, 1..3 inputs/outputs, sequ
         "compared inside block_deser. non-trivial = segwit or non-final sequence or non-empty trailing data.")
 ASSUMPTIONS = ["vf/ref/tx_ref.py legacy/witness serialisation defines txid/wtxid (BIP141)"]
 OBLIGATIONS = {
+    "concurrent_calls": "interleavings of two concurrent calls (single-case checks in two threads, cold and after warm-up calls)",
     "history_sequences": "operation sequences (non-initial process states) explored",
     "segwit_nonfinal_sequence": "a segwit transaction with a sequence other than ffffffff",
     "trailing_byte_inside_tx": "a trailing byte that also occurs inside the transaction",
@@ -144,6 +148,9 @@ CASES = {"ids": chk_ids, "block": chk_block, "poke": chk_poke}
 
 
 def run_case(kind, case):
+    if kind == "concurcase":
+        from vf import concur
+        return concur.replay_cases(run_case, PROPERTY, case, CONCUR_FILES)
     if kind == "seq":
         from vf import seqexplore
         return seqexplore.replay(run_case, case)
@@ -170,10 +177,15 @@ def jobs(tier, seed):
     nsh = 16 if tier == "quick" else 48
     from vf.runner import seq_jobs
     return [{"name": f"ids/{sh}", "part": "ids", "shard": [sh, nsh], "weight": 5} for sh in range(nsh)] + \
-        [{"name": "block", "part": "block", "weight": 2}] + seq_jobs(3, weight=3)
+        [{"name": "block", "part": "block", "weight": 2}] + seq_jobs(3, weight=3) + __import__("vf.runner", fromlist=["x"]).concur_jobs(len(CONCUR_SCEN))
 
 
 def run_job(job):
+    if job["part"] == "concurcase":
+        from vf.runner import run_concur_job
+        ops = seq_ops(dict(job, shard=[0, 1]))
+        scens = [{"threads": [ops[i] for i in th], "warm": [ops[i] for i in wm]} for th, wm in CONCUR_SCEN]
+        return run_concur_job(job, scens, run_case, PROPERTY, CONCUR_FILES)
     if job["part"] == "seq":
         from vf.runner import run_seq_job
         return run_seq_job(job, seq_ops(job), run_case)
